@@ -4,10 +4,21 @@ use aquaverif::props;
 macro_rules! dispatch {
     ($id:expr, $f:ident, $($arg:expr),*) => {
         match $id {
+            "C01" => $f(&props::c01::C01, $($arg),*),
             "C02" => $f(&props::hist::C02, $($arg),*),
             "C03" => $f(&props::hist::C03, $($arg),*),
             "C04" => $f(&props::hist::C04, $($arg),*),
             "C09" => $f(&props::hist::C09, $($arg),*),
+            "C05" => $f(&props::hist2::C05, $($arg),*),
+            "C06" => $f(&props::hist2::C06, $($arg),*),
+            "C07" => $f(&props::hist2::C07, $($arg),*),
+            "C10" => $f(&props::hist2::C10, $($arg),*),
+            "C20" => $f(&props::hist2::C20, $($arg),*),
+            "C27" => $f(&props::hist2::C27, $($arg),*),
+            "C08" => $f(&props::hist3::C08, $($arg),*),
+            "C12" => $f(&props::hist3::C12, $($arg),*),
+            "C21" => $f(&props::hist3::C21, $($arg),*),
+            "C22" => $f(&props::hist3::C22, $($arg),*),
             other => {
                 eprintln!("unknown property {}", other);
                 std::process::exit(3)
@@ -29,6 +40,20 @@ fn do_replay<P: Property>(p: &P, path: &str) -> i32 {
 
 fn main() {
     let args: Vec<String> = std::env::args().collect();
+    if args.get(1).map(|s| s.as_str()) == Some("worker") {
+        aquaverif::isolate::worker_main();
+        return;
+    }
+    aquaverif::isolate::install_quiet_hook();
+    if args.get(1).map(|s| s.as_str()) == Some("rerun") {
+        // fresh-process re-execution for C20: run description on stdin, projection on stdout
+        let mut text = String::new();
+        use std::io::Read;
+        std::io::stdin().read_to_string(&mut text).expect("stdin");
+        let v: serde_json::Value = serde_json::from_str(&text).expect("json");
+        println!("{}", props::hist2::rerun_from_json(&v));
+        return;
+    }
     if args.len() < 3 {
         eprintln!("usage: aquaverif check <ID> <quick|thorough> | replay <ID> <file> | gen <profile> <n>");
         std::process::exit(3);
@@ -41,6 +66,43 @@ fn main() {
         "replay" => {
             let path = args[3].clone();
             dispatch!(args[2].as_str(), do_replay, &path)
+        }
+        "manual" => {
+            // run a hand-written script: JSON {text, n_peers, services: {func: Ret}, actions: [...]}
+            let text = std::fs::read_to_string(&args[2]).expect("read");
+            let v: serde_json::Value = serde_json::from_str(&text).expect("json");
+            let n = v["n_peers"].as_u64().unwrap_or(3) as usize;
+            let peers = aquaverif::gen::peers_for(n);
+            let mut air = v["text"].as_str().unwrap().to_string();
+            for (i, p) in peers.iter().enumerate() {
+                air = air.replace(&format!("@{}", ["A", "B", "C", "D", "E", "F"][i]), &format!("\"{}\"", p.id));
+            }
+            let services = serde_json::from_value(v["services"].clone()).unwrap_or_default();
+            let script = aquaverif::gen::Script { instr: aquaverif::script::I::Null, text: air, peers, services, feat: Default::default() };
+            let mut sim = aquaverif::sim::Sim::new(&script);
+            for a in v["actions"].as_array().cloned().unwrap_or_default() {
+                sim.step(aquaverif::sim::action_from_json(&a).expect("action"));
+            }
+            if v["drain"].as_bool().unwrap_or(false) {
+                sim.drain();
+            }
+            println!("{}", script.text);
+            if std::env::var("DUMP_JSON").is_ok() {
+                if let Some(r) = sim.log.last() {
+                    let d = aquaverif::core::decode_data(&r.out.data).unwrap();
+                    println!("{}", serde_json::to_string_pretty(&aquaverif::core::data_json(&d.data)).unwrap());
+                }
+            }
+            for r in &sim.log {
+                println!("--- step {} {:?} on {} results {:?}", r.step, r.action, script.peers[r.peer].name, r.results);
+                for (n, b) in [("prev", &r.prev), ("cur ", &r.cur), ("new ", &r.out.data)] {
+                    if let Ok(d) = aquaverif::core::decode_data(b) {
+                        println!("  {} lcid {} : {}", n, d.data.last_call_request_id, aquaverif::model::show::trace(&d.data));
+                    }
+                }
+                println!("  => code {} {} next {:?} reqs {:?}", r.out.ret_code, r.out.error_message, r.out.next_peers.iter().map(|p| script.peer_by_id(p).map(|k| k.name.clone()).unwrap_or(p.clone())).collect::<Vec<_>>(), r.out.requests.as_ref().map(|m| m.iter().map(|(k, q)| format!("{}:{}", k, q.function)).collect::<Vec<_>>()));
+            }
+            0
         }
         "trace" => {
             // replay a history case and print every run
